@@ -63,7 +63,9 @@ def scenarios(rng: random.Random, n: int, thorough: bool):
         if thorough and rng.random() < 0.2:
             cfg.pop("max_calc_step_size_feet")
         scs.append({"shot": p, "cfg": cfg, "tid": 0, "mode": mode, "range_ft": rng_ft, "unit": "Foot",
-                    "step_ft": rng_ft / rng.choice([5, 20]), "extra": rng.random() < 0.4, "watchdog_s": 300,
+                    # steps that divide the range, steps that do not (no record distance between where the projectile stops and
+                    # the range), and a step beyond the range (two rows: muzzle and terminal / closing row)
+                    "step_ft": rng_ft / rng.choice([5, 20, 3.7, 1.6, 0.4]), "extra": rng.random() < 0.4, "watchdog_s": 300,
                     **({"time_step": 0.2} if mode in ("vertical",) else {})})
     return scs
 
